@@ -68,6 +68,8 @@ class Units:
     calls {terminal callee name: return unit}
     sigs  {terminal callee name: [unit or None per positional param] or {'kw': unit}}
     ret   declared return unit (or None: all returns must agree with each other)
+    rows  {name of a matrix parameter: [unit per column]}: a row of it unpacked into names gives each name its column's unit,
+          whatever the names are (`a, b, c = row`, `for i, (a, b, c) in enumerate(M)`, `for a, b, c in M`)
     """
 
     def __init__(self, finfo, decl, repo=None, follow=False, _stack=()):
@@ -88,6 +90,8 @@ class Units:
             else:
                 self.sigs[k] = [NAMED[x] if x else None for x in v]
         self.ret = NAMED[decl["ret"]] if decl.get("ret") else None
+        self.rows = {k: [NAMED[x] if x else None for x in v] for k, v in decl.get("rows", {}).items()}
+        self._row_vars = {}         # loop variable holding one row of a declared matrix -> its column units
         self.issues = []   # (node, message, sink)
         self.ops = 0
         self.rets = []
@@ -466,6 +470,18 @@ class Units:
                 iu = self.u(s.iter)
                 if isinstance(s.target, ast.Name) and isinstance(iu, U) and s.target.id not in self._declared:
                     self.env[s.target.id] = iu
+                # rows of a declared matrix
+                it, tg = s.iter, s.target
+                if isinstance(it, ast.Call) and isinstance(it.func, ast.Name) and it.func.id == "enumerate" and it.args and isinstance(tg, (ast.Tuple, ast.List)) and len(tg.elts) == 2:
+                    it, tg = it.args[0], tg.elts[1]
+                if isinstance(it, ast.Name) and it.id in self.rows:
+                    cols = self.rows[it.id]
+                    if isinstance(tg, ast.Name):
+                        self._row_vars[tg.id] = cols
+                    elif isinstance(tg, (ast.Tuple, ast.List)) and len(tg.elts) == len(cols):
+                        for x, cu in zip(tg.elts, cols):
+                            if isinstance(x, ast.Name) and cu is not None:
+                                self.env[x.id] = cu
             self.block(s.body)
             self.block(s.orelse)
         elif isinstance(s, ast.With):
@@ -496,7 +512,12 @@ class Units:
                 if not decl.same(u):
                     self.issue(s, f"`{self.dn(t)}` is declared {decl} but is assigned a value in {u}", f"store:{self.dn(t)}")
         elif isinstance(t, (ast.Tuple, ast.List)):
-            pass
+            v = getattr(s, "value", None)
+            if isinstance(v, ast.Name) and v.id in self._row_vars and len(t.elts) == len(self._row_vars[v.id]):
+                for x, cu in zip(t.elts, self._row_vars[v.id]):
+                    if isinstance(x, ast.Name) and cu is not None:
+                        self._rebound.add(x.id)
+                        self.env[x.id] = cu
 
 
 def check_units(ck, rid, finfo, decl, follow=False):
